@@ -256,7 +256,7 @@ Proof.
   cbn [scan_loop negb]. rewrite Hne, Hc.
   rewrite (before_none _ _ Hsl), (contains_false_split _ _ Hop), (contains_false_split _ _ Hq).
   change ("" ++ l) with l. rewrite Hne.
-  destruct (negb (starts_with "#include" l) && negb asm); reflexivity.
+  destruct (negb (starts_with "#include" (trim_start l)) && negb asm); reflexivity.
 Qed.
 
 (** * Splicing: a line without backslash is a logical line on its own *)
@@ -303,7 +303,7 @@ Proof.
 Qed.
 
 Lemma directive_parts_sp : forall d z,
-    split_once " " (d ++ " " ++ z) = Some (d, z) ->
+    split_blank (d ++ " " ++ z) = Some (d, z) ->
     contains "//" (d ++ " " ++ z) = false ->
     directive_parts (d ++ " " ++ z) = (d, if String.eqb (trim z) "" then None else Some (trim z)).
 Proof.
